@@ -9,12 +9,12 @@ import (
 	ethcmn "github.com/ethereum/go-ethereum/common"
 	tmtypes "github.com/tendermint/tendermint/types"
 
+	btcchain "github.com/Oneledger/protocol/chains/bitcoin"
 	ethchain "github.com/Oneledger/protocol/chains/ethereum"
 	ethcontract "github.com/Oneledger/protocol/chains/ethereum/contract"
 	"github.com/Oneledger/protocol/config"
 	"github.com/Oneledger/protocol/consensus"
 	"github.com/Oneledger/protocol/data/balance"
-	btcchain "github.com/Oneledger/protocol/chains/bitcoin"
 	"github.com/Oneledger/protocol/data/chain"
 	"github.com/Oneledger/protocol/data/delegation"
 	"github.com/Oneledger/protocol/data/evidence"
